@@ -239,9 +239,11 @@ PROPS["C16"] = dict(
     family="scale", specdir="scale",
     technique="TLA+ model of Linear/Log scales (SetClamp as the in-place action, exact rational Map/Unmap on integer and power lattices, QQ composition, NewLog acceptance) with end-point, monotonicity, inverse and clamp laws checked by TLC; all scale configurations replayed into the real scales",
     level_text="TLC enumerates every Linear scale with ends in {-3,0,1,4,10} (both orders, degenerate, clamp on/off reached through SetClamp) and every Log scale with base in {2,10} (thorough {2,3,10,16}), either sign, exponents in {-2,0,1,3} (thorough -12..12) in both orders, paired with four destination scales for QQ; it checks Map(Min)=0, Map(Max)=1, strict monotonicity, Unmap(Map(x))=x and the clamp laws on the specification and emits the exact Map of every lattice point (incl. zero and wrong-sign inputs), the exact Unmap of six levels and QQ.Map; the binder compares the real scales (Linear domains rescaled by 2^-40..2^40), QQ.Unmap(QQ.Map(x))=x, and the NewLog acceptance table at magnitudes 1e-12, 1, 1e12",
-    level_note="Trusted: TLC, binder comparison code, math.Pow for lattice points of Log scales. Non-finite arguments of NewLog are outside the statement. Random off-lattice points are not yet trace-validated.",
+    level_note="Trusted: TLC, binder comparison code, math.Pow for lattice points of Log scales. Non-finite arguments of NewLog are outside the statement. Random domains (|Min|,|Max| in 1e-12..1e12, both orders and signs) and off-lattice points are validated against the laws by ScaleTrace.tla (end points, strict monotonicity with the orientation, mid-point / geometric-mean law, inverse, clamp, NaN, QQ composition and inverse).",
     stages=[dict(name="gen", kind="gen", module="Scale.tla", cfg="Scale_gen.cfg",
-                 consts=dict(LogExps={"quick": "LogExpsQuick", "thorough": "LogExpsThorough"}, LogBases={"quick": "{2,10}", "thorough": "{2,3,10,16}"}))],
+                 consts=dict(LogExps={"quick": "LogExpsQuick", "thorough": "LogExpsThorough"}, LogBases={"quick": "{2,10}", "thorough": "{2,3,10,16}"})),
+            dict(name="trace", kind="trace", family="scalerec", module="ScaleTrace.tla", cfg="ScaleTrace.cfg",
+                 record_args={"quick": ["-n", 80, "-pts", 20], "thorough": ["-n", 3000, "-pts", 40]})],
 )
 
 PROPS["C07"] = dict(
